@@ -1,12 +1,12 @@
 # Stages for NameGate.tla (C04): invalid names are refused by every file system and change nothing.
-NAMEGATE_ADAPTERS = ["mem", "kvplain", "oshp", "mnt:a", "subview:d", "cache", "tar", "tarcut"]
+NAMEGATE_ADAPTERS = ["mem", "kvplain", "nomkdirall", "oshp", "mnt:a", "subview:d", "cache", "tar", "tarcut"]
 
 
-def namegate_stages(ctx):
+def namegate_stages(ctx, adapters=None, attr=None):
     cfgs = ["NameGate.t2.cfg"] if ctx.tier == "quick" else ["NameGate.t2.cfg", "NameGate.t3.cfg"]
     for cfg in cfgs:
-        graph_stage(ctx, "namegate-" + cfg.split(".")[1], "MC_NameGate.tla", cfg, "namegate", NAMEGATE_ADAPTERS,
-                    ["--names", "a,f,a\\b,c:d,..x", "--depth", "2" if "t2" in cfg else "3"], workers=4, frontier=True)
+        graph_stage(ctx, "namegate-" + cfg.split(".")[1], "MC_NameGate.tla", cfg, "namegate", adapters or NAMEGATE_ADAPTERS,
+                    ["--names", "a,f,a\\b,c:d,..x", "--depth", "2" if "t2" in cfg else "3"] + (["--attr", attr] if attr else []), workers=4, frontier=True)
 
 
 CHECKS["C04"] = namegate_stages
